@@ -66,16 +66,19 @@ CORPUS = [
     'L0=3f30000000000000 stopat=2 stopcb=0 nanat=0 oot=0 wmscratch=1',
 ]
 
-# events after a visible stop request: (after the initialisation, after the stop, unpolled backtracks count?)
+# Bounds proved for the models (every step-size / line-search loop polls the flag since /repo c4ffee185):
+# with the flag visible from tick t₀ the solve ends at tick ≤ max(first_poll, t₀ + after_stop), wherever the
+# request lands, the initialisation included.
+#   C19_Panoc.at_most_one_iteration_after_stop, C19_Zerofpr.zerofpr_at_most_one_iteration_after_stop,
+#   C19_Fista.fista_ticks_after_stop: max(8, t₀+7);  C19_Pantr.pantr_ticks_after_stop_max: max(7, t₀+17)
+#   (any carrier; t₀+13 over ordered fields);  PANOC-OCP: C19_Ocp.ocp_ticks_after_stop via loop_ocp.tick_bound.
 BOUNDS = {
-    'panoc': dict(after_init=4, after_stop=7, bt=False),
-    'zerofpr': dict(after_init=4, after_stop=7, bt=False),
-    'pantr': dict(after_init=3, after_stop=17, bt=True),
-    'fista': dict(after_init=5, after_stop=6, bt=True),
+    'panoc': dict(first_poll=8, after_stop=7),
+    'zerofpr': dict(first_poll=8, after_stop=7),
+    'pantr': dict(first_poll=7, after_stop=17),
+    'fista': dict(first_poll=8, after_stop=7),
 }
 AFTER_STOP = BOUNDS['panoc']['after_stop']
-AFTER_INIT = BOUNDS['panoc']['after_init']
-KEY_INIT = 'C19-init-stepsize-loop-not-interruptible'
 
 # unstopped runs of the PANOC-OCP sweep bases: op line (stopat = stopcb = 0) -> names of all its problem calls
 BASE_CALLS = {}
@@ -227,6 +230,10 @@ def monitor(op_line, out_line, st, solver=None):
     else:
         bump('status_after_stop_' + status)
     if flavor == 'ocp':
+        import loop_ocp
+        m = loop_ocp.tick_bound(op_line, out_line)      # C19_Ocp.ocp_ticks_after_stop on the real run
+        if m:
+            return m
         ref = BASE_CALLS.get(base_key(op))
         calls = next((e[1:] for e in evs if e and e[0] == 'calls'), None)
         if ref is None or calls is None:
@@ -253,31 +260,17 @@ def monitor(op_line, out_line, st, solver=None):
     names = LM.ev_names(evs)
     B = BOUNDS[flavor]
     init = init_ticks(names, flavor)
-    b = backtracks_after(names, t0) if B['bt'] else 0
-    if b:
-        bump('unpolled_backtracks_after_stop', b)
-    # promptness: event bound
-    if flavor == 'fista':
-        bound = max(init + B['after_init'], t0 + B['after_stop']) + 2 * b
-    else:
-        bound = max(init + B['after_init'], t0 + B['after_stop'] + 2 * b)
+    # promptness: the theorem's event bound
+    bound = max(B['first_poll'], t0 + B['after_stop'])
+    if t0 <= init:
+        bump('stops_during_initialisation')
     if T > bound:
         return (f'stop() landed at event {t0} but the solve made {T - t0} further calls (total {T}; '
-                f'initialisation {init}; {b} un-polled step-size backtracks after the stop); bound: '
-                f'{B["after_stop"]} (+2 per such backtrack) after the stop or {B["after_init"]} after the '
-                f'initialisation')
+                f'initialisation {init}); bound: max({B["first_poll"]}, t0 + {B["after_stop"]}) = {bound}')
     # at most one more progress callback with status Busy after the stop
     cb_after = sum(1 for n in names[t0:] if n == 'cb')
     if cb_after > 2:
         return f'{cb_after} progress callbacks after stop() landed at event {t0}'
-    if T - t0 > B['after_stop'] + 2 * b:
-        # only possible for a stop that landed during the initialisation: the initial step-size
-        # backtracking loop does not poll the flag
-        nb = sum(1 for i in range(1, init - 1) if names[i] == 'prox' and names[i - 1] == 'psi')
-        bump('stops_during_unpolled_init_backtracking')
-        return (f'stop() landed at event {t0} during the initialisation; the initial step-size loop '
-                f'({nb} backtracks, {init} calls in total) is not interruptible: {T - t0} further calls '
-                f'> {B["after_stop"]}', KEY_INIT)
     bump('bound_checked')
     return None
 
@@ -338,10 +331,10 @@ def thread_monitor(op_line, out_line):
         return f'status {status}'
     sb = r['stats']['stepsize_backtracks']
     # evaluations (problem calls only) ≤ events; un-polled backtracks are not located in time here: all count
-    after = B['after_stop'] + (2 * sb if B['bt'] else 0)
-    maybe_init = at_stop < 6 + 2 * sb
-    if in_time and maybe_init:
-        bump('thread_stop_possibly_during_init')     # promptness bound not applied (see the finding)
+    after = max(B['after_stop'], B['first_poll'])       # every step-size loop polls the flag
+    maybe_init = False
+    if in_time and at_stop < 6 + 2 * sb:
+        bump('thread_stop_possibly_during_init')
     if status == 'Interrupted':
         bump('thread_interrupted'); bump('thread_interrupted_' + solver)
         if not in_time and at_stop < 0:
